@@ -370,6 +370,12 @@ func (st *Runtime) executeYieldBlock(node Node, block *BlockNode, blockParam, yi
 		st.content = func(st *Runtime, expression Expression) {
 			outscope := st.scope
 			outcontent := st.content
+			// also when the content fails: the scopes opened between the block and this point are
+			// released by their own deferred calls while the panic unwinds
+			defer func() {
+				st.scope = outscope
+				st.content = outcontent
+			}()
 
 			st.scope = myscope
 			st.content = mycontent
@@ -382,9 +388,6 @@ func (st *Runtime) executeYieldBlock(node Node, block *BlockNode, blockParam, yi
 			} else {
 				st.executeList(content)
 			}
-
-			st.scope = outscope
-			st.content = outcontent
 		}
 	}
 
